@@ -12,6 +12,9 @@
 //!     6 sig c          flag::register_conditional_default(sig, c)
 //!     7 k              low_level::unregister(id of the k-th registration op)
 //!     8 sig k          low_level::register(sig, observer k)   -- reports all flags when run
+//!     9 sig k          low_level::register(sig, observer k that also raises sig the first time it runs): the
+//!                      signal is blocked inside its own handler, so that raise stays pending until the handler
+//!                      returns and is delivered then (a second signal arriving during the first delivery)
 //!   environment ops, only at the front, neither counted nor reported (the property does not
 //!   depend on them):
 //!     -1 sig d         disposition of sig before anything is registered: d = 1 SIG_IGN, 2 a
@@ -164,6 +167,23 @@ fn child(nb: usize, nu: usize, ops: &[i64]) -> i32 {
                 ids.push(r.ok());
                 i += 3;
             }
+            9 => {
+                let fl = flags.clone();
+                let k = arg(i + 2);
+                let sig = arg(i + 1) as i32;
+                let fired = AtomicBool::new(false);
+                let r = unsafe {
+                    signal_hook::low_level::register(sig, move || {
+                        fl.report(2, k, 0);
+                        if !fired.swap(true, Ordering::SeqCst) {
+                            libc::raise(sig);
+                        }
+                    })
+                };
+                res = r.is_ok() as i64;
+                ids.push(r.ok());
+                i += 3;
+            }
             _ => return 99,
         }
         flags.report(1, opno, res);
@@ -187,7 +207,7 @@ fn count_ops(ops: &[i64]) -> Option<usize> {
             5 => 4,
             6 => 3,
             7 => 2,
-            8 => 3,
+            8 | 9 => 3,
             _ => return None,
         };
         n += 1;
